@@ -320,7 +320,12 @@ func (s *Server) doUpdateOrReplace(ctx context.Context, prefix *gnmi.Path, u *gn
 	prefixPath := utils.StrPath(prefix)
 	path := utils.StrPath(u.Path)
 	if prefixPath != "/" {
-		path = fmt.Sprintf("%s%s", prefixPath, path)
+		if path == "/" {
+			// An empty path: the prefix itself names the node
+			path = prefixPath
+		} else {
+			path = fmt.Sprintf("%s%s", prefixPath, path)
+		}
 	}
 
 	jsonVal := u.GetVal().GetJsonVal()
@@ -392,7 +397,12 @@ func (s *Server) doDelete(prefix *gnmi.Path, gnmiPath *gnmi.Path, target *target
 	prefixPath := utils.StrPath(prefix)
 	path := utils.StrPath(gnmiPath)
 	if prefixPath != "/" {
-		path = fmt.Sprintf("%s%s", prefixPath, path)
+		if path == "/" {
+			// An empty path: the prefix itself names the node
+			path = prefixPath
+		} else {
+			path = fmt.Sprintf("%s%s", prefixPath, path)
+		}
 	}
 	if err := checkPathIndexValues(path); err != nil {
 		return err
